@@ -7,7 +7,7 @@ import copy
 
 from .emit import KIND_FLAGS, inotify_event_implications
 from .model import AnalysisError, Program
-from .pse import Cfg, Enumerator, Path
+from .pse import Cfg, Enumerator, Path, rewrite
 
 MAPS = ("self._wd_for_path", "self._path_for_wd", "self._moved_from_events")
 
@@ -47,18 +47,18 @@ class ReaderCfg(Cfg):
         return None
 
     def canon_term(self, t, st):
-        class T(ast.NodeTransformer):
-            def visit_Attribute(s, n):
-                if (
-                    isinstance(n.value, ast.Call)
-                    and isinstance(n.value.func, ast.Name)
-                    and n.value.func.id == "InotifyEvent"
-                    and n.attr.startswith("is_")
-                ):
-                    return ast.Attribute(ast.Name("rec", ast.Load()), n.attr, ast.Load())
-                return s.generic_visit(n)
+        def fn(n):
+            if (
+                isinstance(n, ast.Attribute)
+                and isinstance(n.value, ast.Call)
+                and isinstance(n.value.func, ast.Name)
+                and n.value.func.id == "InotifyEvent"
+                and n.attr.startswith("is_")
+            ):
+                return ast.Attribute(ast.Name("rec", ast.Load()), n.attr, ast.Load())
+            return None
 
-        return T().visit(copy.deepcopy(t))
+        return rewrite(t, fn)
 
     def consistent(self, val):
         for grp in self.exclusive:
